@@ -31,7 +31,7 @@ func PlanFor(prop, tier string) (*Plan, error) {
 		p.Monitors = func() []Monitor { return []Monitor{NewC03()} }
 		p.Rule = "order-book enumeration: every book of <=N real PlaceBid calls (bidder x kind x price x amount, incl. a price level that turns small worth-bids into zero coins) under several cap/supply assignments, plus every book the modification scenario reaches; for each distinct book the MatchingInfo of the real CalculateBatchAllocation and, at the settlement block, the delivered coins are compared with the definition (linear scan over all recorded prices, exact rationals); non-trivial = distinct order books (digest of bids, caps, supply)"
 	case "C04":
-		p.Scenarios = append(bookScenarios(tier), S1b(tier, "3", true), S1b(tier, "0.5", false), S2b(tier, 2, false), S2o(tier), S2m(tier), S11(tier), S13(tier, false), S13(tier, true), S1b(tier, "3", true).withBudget(Budget{"update": 0, "bid": 3, "block": 2, "tick": 0}, "-lite").withReimport(false))
+		p.Scenarios = append(bookScenarios(tier), S1b(tier, "3", true), S1b(tier, "0.5", false), S2b(tier, 2, false), S2o(tier), S2m(tier), S11(tier), S13(tier, false), S13(tier, true), S1b(tier, "3", false).tagged("ledger").withBudget(Budget{"update": 0, "bid": 3, "block": 2, "tick": 0}, "-lite").withReimport(false))
 		if !quick {
 			p.Scenarios = append(p.Scenarios, S1b(tier, "0.333333333333333333", true), S2b(tier, 0, true), S2a(tier, true))
 		}
